@@ -575,6 +575,31 @@ func c05Verdict(c *Ctx, fname string) {
 		})
 		c.Check(!escapes, "C05-R2", short+":nil return dominated by verdict test", rs.Inner.Pos(), "success exit only when no problem reached the threshold", "a `return nil` after counting is reachable without passing the false edge of the verdict test")
 	}
+	// converse: every error return reachable after counting is either the verdict's or propagates an operational error
+	errReturns := fl.Find(func(n ast.Node) bool {
+		r, ok := n.(*ast.ReturnStmt)
+		return ok && len(r.Results) == 1 && !isNilIdent(info, r.Results[0])
+	})
+	for _, rs := range errReturns {
+		target := rs.Site
+		if reachable, _ := fl.Reach(*start, func(s Site) bool { return s == target }, false, PathQ{}); !reachable {
+			continue
+		}
+		byVerdict := fl.Dominated(rs.Site, nil, func(a Atom) bool {
+			tf, ok := isVerdictAtom(a)
+			return ok && a.Truth == tf
+		})
+		byOpErr := fl.Dominated(rs.Site, nil, func(a Atom) bool {
+			x, isNil, ok := nilAtom(info, a)
+			if !ok || isNil {
+				return false
+			}
+			t := info.TypeOf(x)
+			return t != nil && t.String() == "error"
+		})
+		c.Check(byVerdict || byOpErr, "C05-R2", short+":error exit after counting is the verdict's or an operational failure", rs.Inner.Pos(), "dominated by the verdict test or by `err != nil`",
+			"an error return after counting is guarded neither by the verdict test nor by an operational error: the run can fail although no problem reached --fail-on")
+	}
 	c.Check(nchecked > 0, "C05-R2", short+":success exit exists after counting", fi.Decl.Pos(), itoa(nchecked)+" nil return(s)", "no `return nil` reachable after counting")
 	// the true edge of the verdict test leads to a non-nil return
 	okFail := false
